@@ -9,7 +9,7 @@
    handles the real 256 x 65536 matrix; the matrix model is parametric in
    ROW and COL. *)
 From Coq Require Import FMapPositive Sorting.Mergesort Orders.
-From GV Require Export Lib.Trace.
+From GV Require Export Lib.Trace Spec.FinMap.
 Open Scope Z_scope.
 
 (* ---- finite maps with Z keys ---- *)
@@ -37,8 +37,7 @@ Record conn := mkConn { c_fd : Z; c_gfd : gfdT }.
 Definition zero_gfd := mkGfd 0 0 0.
 
 (* the visitor used by the harness: delConn the visited connection iff
-   m > 0 and fd mod m = k *)
-Definition del_pred (m k fd : Z) : bool := (0 <? m) && (fd mod m =? k).
+   m > 0 and fd mod m = k (Spec.FinMap.del_pred); stop after lim visits *)
 Definition keep_going (lim n : Z) : bool := negb ((0 <=? lim) && (lim <=? n)).
 
 (* ================================================================ *)
@@ -141,15 +140,17 @@ Definition mx_add (st : matst) (id fd : Z) : matst :=
   then set_heap st (zset (m_heap st) id (mkConn fd zero_gfd))     (* silently dropped *)
   else
     let r := m_row st in let c := m_col st in
-    let tbl := match zget (m_table st) r with
-               | None => zset (m_table st) r zempty               (* make([]*conn, COL) *)
-               | Some _ => m_table st end in
-    let rowm := match zget tbl r with Some x => x | None => zempty end in
+    let st1 := if row_nil st r then set_table st (zset (m_table st) r zempty)   (* make([]*conn, COL) *)
+               else st in
     let g := mkGfd r c fd in
-    let st1 := mkMat (m_dc st) (m_counts st) r c (zset tbl r (zset rowm c id))
-                     (zset (m_f2g st) fd g) (zset (m_heap st) id (mkConn fd g)) in
-    let st2 := inc_count st1 r 1 in
-    if c + 1 =? COL then set_next st2 (r + 1) 0 else set_next st2 r (c + 1).
+    let st2 := set_heap st1 (zset (m_heap st1) id (mkConn fd g)) in             (* c.gfd = NewGFD(..) *)
+    let st3 := set_f2g st2 (zset (m_f2g st2) fd g) in
+    match set_cell st3 r c (Some id) with
+    | Panic => st                                                              (* unreachable: the row was just allocated *)
+    | Ret st4 =>
+        let st5 := inc_count st4 r 1 in
+        if c + 1 =? COL then set_next st5 (r + 1) 0 else set_next st5 r (c + 1)
+    end.
 
 (* the last non-nil column of a row strictly above [lo] (the backward column scan) *)
 Definition last_col (rowm : zmap Z) (lo : Z) : option (Z * Z) :=
@@ -249,6 +250,85 @@ Definition mx_iterate (st : matst) (m k lim : Z) : outcome (matst * list Z) :=
   end.
 
 End Matrix.
+
+(* ================================================================ *)
+(* op-list semantics of both variants (what the theorems quantify over) *)
+
+Definition mp_apply (st : mapst) (o : rop) : outcome (mapst * list (list Z)) :=
+  match o with
+  | OAdd id fd => Ret (mp_add st id fd, [])
+  | ODel id => match mp_del st id with Ret st' => Ret (st', []) | Panic => Panic end
+  | OIter m k => match mp_iterate st m k (-1) with Ret (st', vis) => Ret (st', [vis]) | Panic => Panic end
+  end.
+Fixpoint mp_run (st : mapst) (ops : list rop) : outcome (mapst * list (list Z)) :=
+  match ops with
+  | [] => Ret (st, [])
+  | o :: t =>
+      match mp_apply st o with
+      | Panic => Panic
+      | Ret (st', out) =>
+          match mp_run st' t with Panic => Panic | Ret (st'', outs) => Ret (st'', (out ++ outs)%list) end
+      end
+  end.
+
+Section MatrixRun.
+Variables ROW COL : Z.
+
+Definition mx_apply (st : matst) (o : rop) : outcome (matst * list (list Z)) :=
+  match o with
+  | OAdd id fd => Ret (mx_add ROW COL st id fd, [])
+  | ODel id => match mx_del ROW COL st id with Ret st' => Ret (st', []) | Panic => Panic end
+  | OIter m k => match mx_iterate ROW COL st m k (-1) with Ret (st', vis) => Ret (st', [vis]) | Panic => Panic end
+  end.
+Fixpoint mx_run (st : matst) (ops : list rop) : outcome (matst * list (list Z)) :=
+  match ops with
+  | [] => Ret (st, [])
+  | o :: t =>
+      match mx_apply st o with
+      | Panic => Panic
+      | Ret (st', out) =>
+          match mx_run st' t with Panic => Panic | Ret (st'', outs) => Ret (st'', (out ++ outs)%list) end
+      end
+  end.
+
+(* ---- the representation invariant of the matrix (DESIGN.md A.3), outside iteration ----
+   positions are ordered lexicographically; (m_row, m_col) is the next free one *)
+Definition plt (r c r' c' : Z) : Prop := r < r' \/ (r = r' /\ c < c').
+Definition pltb (r c r' c' : Z) : bool := (r <? r') || ((r =? r') && (c <? c')).
+(* number of live cells of row r when the live cells are exactly the positions below (row, col) *)
+Definition cnt_at (row col r : Z) : Z :=
+  if r <? 0 then 0 else if r <? row then COL else if r =? row then col else 0.
+
+Record matrix_inv (st : matst) : Prop := {
+  inv_dc : m_dc st = false;
+  inv_next : 0 <= m_row st <= ROW /\ 0 <= m_col st < COL /\ (m_row st = ROW -> m_col st = 0);
+  (* dense prefix: a cell is occupied iff it lies below the next free position *)
+  inv_live : forall r c, cell st r c <> None <-> (0 <= r /\ 0 <= c < COL /\ plt r c (m_row st) (m_col st));
+  (* per-row counts are exact *)
+  inv_cnt : forall r, cnt st r = cnt_at (m_row st) (m_col st) r;
+  (* a row slice is allocated iff its count is non-zero *)
+  inv_nil : forall r, row_nil st r = true <-> cnt st r = 0;
+  (* the connection in a cell stores that position in its own GFD, and fd2gfd agrees *)
+  inv_cell : forall r c id, cell st r c = Some id ->
+     exists fd, zget (m_heap st) id = Some (mkConn fd (mkGfd r c fd)) /\
+                zget (m_f2g st) fd = Some (mkGfd r c fd);
+  (* every fd2gfd entry points at the cell holding the connection with that fd *)
+  inv_f2g : forall fd g, zget (m_f2g st) fd = Some g ->
+     g_fd g = fd /\ exists id, cell st (g_row g) (g_col g) = Some id /\
+                              zget (m_heap st) id = Some (mkConn fd g)
+}.
+
+(* number of registered connections in terms of the next free position *)
+Definition population (st : matst) : Z := m_row st * COL + m_col st.
+
+End MatrixRun.
+
+(* two matrix states that no registry operation can tell apart (the heap of
+   connection objects is not part of the registry) *)
+Definition mat_equiv (a b : matst) : Prop :=
+  m_dc a = m_dc b /\ m_row a = m_row b /\ m_col a = m_col b /\
+  (forall r, cnt a r = cnt b r) /\ (forall r, row_nil a r = row_nil b r) /\
+  (forall r c, cell a r c = cell b r c) /\ (forall fd, zget (m_f2g a) fd = zget (m_f2g b) fd).
 
 (* ================================================================ *)
 (* trace runner: family "registry"                                   *)
